@@ -28,10 +28,11 @@ Format (indentation based, '#' starts a comment line):
       <clause>
     loop <n>
       <invariant/decreases text>
-    closure <n>
-      sig <text>
+    closure <callee>#<k>            (k-th closure literal passed to a call named <callee>)
+      type <type of parameter 1>    (one `type` line per parameter; names come from the source)
+      ret <binder>: <type>
       contract
-        <text>
+        <text; $1 $2 .. stand for the parameter names>
     hint before|after "<anchor>"
       <text>
     body_open
@@ -147,13 +148,17 @@ def parse_overlay(text, fname='<overlay>'):
                 elif k2 == 'loop':
                     u['loops'][r2] = _dedent(b2)
                 elif k2 == 'closure':
-                    c = {'sig': '', 'contract': ''}
+                    c = {'types': [], 'ret': '', 'contract': ''}
                     for _, h3, b3 in _blocks(b2):
                         k3, _, r3 = h3.partition(' ')
-                        if k3 == 'sig':
-                            c['sig'] = r3.strip()
+                        if k3 == 'type':
+                            c['types'].append(r3.strip())
+                        elif k3 == 'ret':
+                            c['ret'] = r3.strip()
                         elif k3 == 'contract':
                             c['contract'] = _dedent(b3)
+                        else:
+                            raise OverlayError(f'{fname}: unit {rest}: closure {r2}: unknown directive {k3}')
                     u['closures'][r2] = c
                 elif k2 == 'hint':
                     m = re.match(r'(before|after)\s+"(.*)"\s*$', r2)
